@@ -23,6 +23,13 @@ NOT_DECIDED = "Interleavings of several real threads with the loop and with stop
 FT = "from_thread.py"
 
 
+def spawn_calls(f):
+    """the marshalled spawn of the portal, in its inlined form (core.INLINE_ALWAYS): `run_sync(<start_soon of the portal's group>,
+    self._call_func, func, args, kwargs, future, token=self._token)`"""
+    return [n for n in own_walk(f.node) if isinstance(n, ast.Call) and call_name(n) == "run_sync" and len(n.args) >= 2
+            and ast.unparse(n.args[1]) == "self._call_func"]
+
+
 def check(ctx):
     cf = ctx.fn("BlockingPortal._call_func", FT)
     fn = cf.node
@@ -70,9 +77,13 @@ def check(ctx):
         srs = ctx.sites(cf, f"{p_fut}.set_result($X)")
         for st, env in srs:
             x = env["X"]
-            defs = [n for n in own_walk(fn) if isinstance(n, ast.Assign) and len(n.targets) == 1 and getattr(n.targets[0], "id", None) == getattr(x, "id", "?")]
+            defs = [n for n in own_walk(fn) if (isinstance(n, ast.Assign) and len(n.targets) == 1 and getattr(n.targets[0], "id", None) == getattr(x, "id", "?"))
+                    or (isinstance(n, ast.AnnAssign) and n.value is not None and getattr(n.target, "id", None) == getattr(x, "id", "?"))]
             vals = sorted(ast.unparse(d.value) for d in defs)
             ok = vals == sorted([f"await {r0}", r0])
+            if not ok and getattr(x, "id", None) == r0:
+                # one variable for both stages: `retval = func(...)`, then `retval = await retval` if it is awaitable
+                ok = len(defs) == 2 and any(d is stmt_of(rv[0][0]) or d.value is rv[0][0] for d in defs) and f"await {r0}" in vals
             ctx.ob("R15-a", cf, "the result delivered is the callable's return value, awaited if awaitable", ok, node=st,
                    detail="" if ok else f"`{norm(st)}` delivers a value defined as {vals}", by=tuple(vals))
             ctx.require_at("R15-a", cf, st, [[f"not {p_fut}.cancelled()"]], instance="a result is set only on a future that was not cancelled", what="set_result", broad=True)
@@ -168,11 +179,16 @@ def check(ctx):
                 return "returns without having checked that the portal is running"
             return None
 
-        ctx.paths("R15-b", f, [("chk", "self._check_running()"), ("spawn", "self._spawn_task_from_thread($*A)")], step_b, False, at_exit_b, instance=f"{q}: running check dominates the spawn")
-        sp = ctx.sites(f, "self._spawn_task_from_thread($*A)")
-        ctx.need("R15-b", f, "`self._spawn_task_from_thread(...)`", len(sp), 1)
+        spc = spawn_calls(f)
+        spids = {id(x) for x in spc}
+        ctx.paths("R15-b", f, [("chk", "self._check_running()"),
+                               ("spawn", [lambda frag, node, ids=spids: frag is not None and any(id(x) in ids for x in [frag] + list(own_walk(frag)))])],
+                  step_b, False, at_exit_b, instance=f"{q}: running check dominates the spawn")
+        sp = [(x, {}) for x in spc]
+        ctx.need("R15-b", f, "the spawn `run_sync(..., self._call_func, func, args, kwargs, future, token=self._token)`", len(sp), 1)
         for st, _ in sp:
-            a = st.args
+            a = st.args[2:]
+            a = [a[0], a[1], a[2], None, a[3]] if len(a) == 4 else []          # (func, args, kwargs, -, future)
             fparams = f.node.args
             okf = len(a) == 5 and ast.unparse(a[0]) == fparams.args[1].arg and ast.unparse(a[1]) == fparams.vararg.arg and isinstance(a[4], ast.Name)
             ctx.ob("R15-b", f, "the spawn forwards func, args and the future that is handed back to the caller", okf, node=stmt_of(st),
@@ -189,11 +205,14 @@ def check(ctx):
     ctx.ob("R15-b", callf[0], "call() is start_task_soon(func, *args).result()", len(s) == 1, detail="" if s else "BlockingPortal.call no longer delegates to start_task_soon().result()", by=("delegation",))
     chk = ctx.fn("BlockingPortal._check_running", FT)
     rz = ctx.sites(chk, "raise RuntimeError($*A)")
-    ctx.need("R15-b", chk, "RuntimeError raises in _check_running", len(rz), 2)
+    ctx.need("R15-b", chk, "RuntimeError raises in _check_running", len(rz), 1)
+    same_thread = F("self._event_loop_thread_id == get_ident()")
 
     def at_exit_chk(kind, st, facts):
         if kind == "return" and ("self._event_loop_thread_id is None", False) not in facts:
             return "_check_running returns normally without having established that the portal is running"
+        if kind == "return" and (same_thread[0], not same_thread[1]) not in facts:
+            return "_check_running returns normally without having excluded a call from the event loop thread itself (it would deadlock waiting for its own loop)"
         return None
 
     ctx.paths("R15-b", chk, [], lambda st, e, c: st, 0, at_exit_chk, instance="_check_running passes only a running portal")
@@ -220,20 +239,23 @@ def check(ctx):
            by=("writer table",))
 
     # ---- R15-c tasks belong to the portal's group -------------------------------------------------------------------------------------------------
-    sp = ctx.fn("BlockingPortal._spawn_task_from_thread", FT)
-    spp = [a.arg for a in sp.node.args.args]
-    rsx = [n for n in own_walk(sp.node) if isinstance(n, ast.Call) and call_name(n) == "run_sync"]
-    if ctx.need("R15-c", sp, "`run_sync(...)` marshalling the spawn into the loop thread", len(rsx), 1) and len(spp) == 6:
-        c = rsx[0]
-        _, s_func, s_args, s_kwargs, s_name, s_fut = spp
-        a0 = ast.unparse(c.args[0]) if c.args else ""
-        ok0 = a0.replace(" ", "") in (f"partial(self._task_group.start_soon,name={s_name})", "self._task_group.start_soon")
-        rest = [ast.unparse(x) for x in c.args[1:]]
-        ok1 = rest == ["self._call_func", s_func, s_args, s_kwargs, s_fut]
-        tok = any(k.arg == "token" and ast.unparse(k.value) == "self._token" for k in c.keywords)
-        ctx.ob("R15-c", sp, "the call wrapper is started in the portal's own task group", ok0, node=stmt_of(c), detail="" if ok0 else f"first argument is `{a0}`", by=("self._task_group.start_soon",))
-        ctx.ob("R15-c", sp, "the wrapper receives (func, args, kwargs, future) unchanged", ok1, node=stmt_of(c), detail="" if ok1 else f"arguments are {rest}", by=("self._call_func, func, args, kwargs, future",))
-        ctx.ob("R15-c", sp, "the spawn is marshalled into the portal's event loop", tok, node=stmt_of(c), detail="" if tok else "run_sync without token=self._token", by=("token=self._token",))
+    n_sp = 0
+    for q in ("BlockingPortal.start_task_soon", "BlockingPortal.start_task"):
+        cands = [f for f in ctx.repo.funcs.get(q, []) if f.module.endswith(FT) and not any(isinstance(d, ast.Name) and d.id == "overload" for d in f.node.decorator_list)]
+        for f_ in cands:
+            for c in spawn_calls(f_):
+                n_sp += 1
+                a0 = ast.unparse(c.args[0]).replace(" ", "")
+                ok0 = a0.startswith("partial(self._task_group.start_soon,name=") or a0 == "self._task_group.start_soon"
+                tok = any(k.arg == "token" and ast.unparse(k.value) == "self._token" for k in c.keywords)
+                ctx.ob("R15-c", f_, "the call wrapper is started in the portal's own task group", ok0, node=stmt_of(c), detail="" if ok0 else f"first argument is `{a0}`", by=("self._task_group.start_soon",))
+                fp_ = f_.node.args
+                ok1 = len(c.args) == 6 and ast.unparse(c.args[2]) == fp_.args[1].arg and fp_.vararg is not None and ast.unparse(c.args[3]) == fp_.vararg.arg \
+                    and isinstance(c.args[4], ast.Dict) and isinstance(c.args[5], ast.Name)
+                ctx.ob("R15-c", f_, "the wrapper receives (func, args, kwargs, future) in that order", ok1, node=stmt_of(c),
+                       detail="" if ok1 else f"arguments are {[ast.unparse(x) for x in c.args[1:]]}", by=("self._call_func, func, args, kwargs, future",))
+                ctx.ob("R15-c", f_, "the spawn is marshalled into the portal's event loop", tok, node=stmt_of(c), detail="" if tok else "run_sync without token=self._token", by=("token=self._token",))
+    ctx.need("R15-c", ctx.fn("BlockingPortal.__init__", FT), "`run_sync(...)` marshalling the spawn into the loop thread (start_task_soon, start_task)", n_sp, 2)
     init = ctx.fn("BlockingPortal.__init__", FT)
     s = ctx.sites(init, "self._task_group = create_task_group()")
     ctx.ob("R15-c", init, "one task group per portal", len(s) == 1, detail="" if s else "no `self._task_group = create_task_group()`", by=("create_task_group()",))
@@ -307,13 +329,22 @@ def check(ctx):
     # ---- R15-e start_task handshake ------------------------------------------------------------------------------------------------------------------
     st_f = [f for f in ctx.repo.funcs.get("BlockingPortal.start_task", []) if f.module.endswith(FT)][0]
     td = ctx.fn("BlockingPortal.start_task.task_done", FT)
-    tparam = td.node.args.args[0].arg
+    tdp = [a_.arg for a_ in td.node.args.args if a_.arg != "self"]
+    # the done-callback gets the finished task's future as its (last) argument; the status future is a captured variable of the
+    # closure - or, when the callback was moved out of start_task and is bound with functools.partial, a leading parameter
+    tparam = tdp[-1]
     sfut = "task_status_future"
-    names = {x.id for x in ast.walk(td.node) if isinstance(x, ast.Name)}
-    cand = [n for n in names if ctx.sites(st_f, f"{n} = Future()") or ctx.sites(st_f, f"{n}: Future = Future()")]
-    cand = [n for n in cand if n != tparam]
-    if cand:
-        sfut = sorted(cand)[0]
+    sfut_st = None          # the name of the status future inside start_task itself
+    if len(tdp) > 1:
+        lead = [p_ for p_ in tdp[:-1] if ctx.sites(td, f"{p_}.cancel()") or ctx.sites(td, f"{p_}.set_exception($X)")]
+        sfut = (lead or tdp[:1])[0]
+    else:
+        names = {x.id for x in ast.walk(td.node) if isinstance(x, ast.Name)}
+        cand = [n for n in names if ctx.sites(st_f, f"{n} = Future()") or ctx.sites(st_f, f"{n}: Future = Future()")]
+        cand = [n for n in cand if n != tparam]
+        if cand:
+            sfut = sorted(cand)[0]
+        sfut_st = sfut
 
     def step_e(st, e, c):
         if c.is_exc:
@@ -346,19 +377,34 @@ def check(ctx):
     s = ctx.sites(ts, f"self._future.set_result({ts.node.args.args[1].arg})")
     ctx.ob("R15-e", ts, "started(value) resolves the status future with that value", len(s) == 1, detail="" if s else "started() does not set the value on the status future", by=("set_result(value)",))
     # plumbing in start_task
-    cbreg = ctx.sites(st_f, "$F.add_done_callback(task_done)")
-    spw = ctx.sites(st_f, "self._spawn_task_from_thread($*A)")
+    cbreg = ctx.sites(st_f, f"$F.add_done_callback({td.node.name})") if sfut_st else []
+    if not cbreg:
+        for pat in (f"$F.add_done_callback(partial({td.node.name}, $S))", f"$F.add_done_callback(partial(self.{td.node.name}, $S))",
+                    f"$F.add_done_callback(functools.partial({td.node.name}, $S))"):
+            cbreg = ctx.sites(st_f, pat)
+            if cbreg:
+                sfut_st = u(cbreg[0][1]["S"])
+                break
+    sfut_in_start = sfut_st or sfut
+    spw = [(x, {}) for x in spawn_calls(st_f)]
     okpl = False
     if len(cbreg) == 1 and len(spw) == 1:
         fut = u(cbreg[0][1]["F"])
-        a = spw[0][0].args
-        okpl = cbreg[0][0].lineno < spw[0][0].lineno and len(a) == 5 and ast.unparse(a[4]) == fut and isinstance(a[2], ast.Dict) and \
+        a = spw[0][0].args[2:]
+        a = [a[0], a[1], a[2], None, a[3]] if len(a) == 4 else []
+        def top_index(n_):
+            cur = n_
+            while cur is not None and getattr(cur, "_parent", None) is not st_f.node:
+                cur = getattr(cur, "_parent", None)
+            return st_f.node.body.index(cur) if cur in st_f.node.body else -1
+
+        okpl = 0 <= top_index(cbreg[0][0]) < top_index(spw[0][0]) and len(a) == 5 and ast.unparse(a[4]) == fut and isinstance(a[2], ast.Dict) and \
             [ast.unparse(k) for k in a[2].keys] == ["'task_status'"]
         if okpl:
             tsv = ast.unparse(a[2].values[0])
-            mk = ctx.sites(st_f, f"{tsv} = _BlockingPortalTaskStatus({sfut})")
+            mk = ctx.sites(st_f, f"{tsv} = _BlockingPortalTaskStatus({sfut_in_start})")
             rets = [n for n in own_walk(st_f.node) if isinstance(n, ast.Return) and n.value is not None]
-            okpl = len(mk) == 1 and len(rets) == 1 and ast.unparse(rets[0].value).replace(" ", "") == f"({fut},{sfut}.result())".replace(" ", "")
+            okpl = len(mk) == 1 and len(rets) == 1 and ast.unparse(rets[0].value).replace(" ", "") == f"({fut},{sfut_in_start}.result())".replace(" ", "")
     ctx.ob("R15-e", st_f, "start_task wires done-callback, status object and futures together and returns (future, started value)", okpl,
            detail="" if okpl else "the done-callback is not registered before the spawn, or task_status / the returned pair are not built from the same futures", by=("plumbing",))
 
